@@ -111,7 +111,7 @@ def central_rules(ctx, facts, rep):
     ok &= rep.check(good, rule, "skip-to-lengths", where(fc, fc.span), "skips %d bytes from the signature to the name length (APPNOTE 4.3.7)" % want,
                     "find_content skips %s bytes after the signature; the name length field is %d bytes after it" % ([show(c) for c in curs], want))
     # signature compared
-    sg = find_switch_on(fc, lambda d: d[0] == "bin" and d[1] in ("Ne", "Eq") and any(x[0] == "named" and x[1].endswith("LOCAL_FILE_HEADER_SIGNATURE") for x in (d[2], d[3])))
+    sg = find_switch_on(fc, lambda d: d[0] == "bin" and d[1] in ("Ne", "Eq") and any(x[0] == "const" and x[2] == 0x04034b50 for x in (d[2], d[3])))
     ok &= rep.check(bool(sg), rule, "local-signature-checked", where(fc, fc.span), "local header signature verified before use",
                     "find_content no longer verifies the local file header signature")
     # first seek goes to header_start
